@@ -26,7 +26,7 @@ def sim_case(
     with_library=True,
     time_kinds=("uniform", "quadratic", "geometric", "random", "big", "repeat", "intdays"),
     schedules=True,
-    families=("power", "power1", "kinked", "realgas"),
+    families=("power", "power1", "kinked", "realgas", "liquid"),
 ):
     cls = draw(st.sampled_from(list(classes)))
     nx = draw(st.one_of(st.integers(3, min(12, nx_max)), st.integers(3, nx_max), st.integers(3, nx_max).map(lambda v: v)))
